@@ -61,8 +61,8 @@ C08(i) ==
 C09(i) ==
   LET e == Ev(i) IN
   IF IsStep(i) /\ ~e.pl THEN
-    LET t == Next(A(Pre(i)), e.a) IN
-    { <<"C09.step_rel", A(e.s) = t>>,
+    LET t == Succ(A(Pre(i)), e.a) IN
+    { <<"C09.step_rel", StepRel(A(Pre(i)), e.a, A(e.s))>>,
       <<"C09.step_rel.board", e.s.board = t.board>>,
       <<"C09.step_rel.step_count", e.s.step_count = t.step_count>>,
       <<"C09.step_rel.flat_mine_locations", e.s.flat_mine_locations = t.flat_mine_locations>>,
